@@ -10,6 +10,7 @@ import ast
 from ..model import src, walk_local, AnalysisError
 from .. import rules_lock
 from ..rules_common import check_len_published
+from ..cfg import ReachingDefs
 
 CLAIM = ("static analysis (lock typestate over the CFG + who-may-write): necessary conditions of C11 - "
          "the cache lock is released on every path, never held across a yield, never released by a "
@@ -78,19 +79,44 @@ def run(ctx):
     # C11.TAIL - whoever observes completion drains the rest of the cache: the generator's normal exit is reached
     # only through the tail loop `while i < self._len`
     cfg = ctx.cfg(ic)
-    tail = [n for n in cfg.live_nodes() if n.kind == "branch" and n.loop is not None and "self._len" in src(n.ast)]
+    # the tail loop: a loop whose test compares the cursor with the length of what was cached - the published length
+    # `self._len`, or `len(<the iterator's own reference to the cache list>)`, which is the same number once the
+    # generator is exhausted (C11.LEN / C11.SHARED) and stays right for an iterator overtaken by an invalidation
+    rd_ic = ReachingDefs(cfg, params=ic.params)
+
+    def cache_local(name, at):
+        ds = rd_ic.at(at, name)
+        return bool(ds) and all(i and isinstance(cfg.nodes[i].ast, ast.Assign) and src(cfg.nodes[i].ast.value) == "self._cache" for i in ds)
+
+    def length_operand(e, at):
+        if src(e) == "self._len":
+            return True
+        return isinstance(e, ast.Call) and src(e.func) == "len" and len(e.args) == 1 and (
+            src(e.args[0]) == "self._cache" or (isinstance(e.args[0], ast.Name) and cache_local(e.args[0].id, at)))
+    from .c10 import norm_cmp
+    # the filling loop also compares the cursor with len(cache) (`if i == len(cache)`): the tail loop is the *loop* whose
+    # own test is such a comparison
+    tail = []
+    for n in cfg.live_nodes():
+        if n.kind == "branch" and n.loop is not None and isinstance(n.loop, ast.While) and n.ast is n.loop.test:
+            nc = norm_cmp(n.ast)
+            if nc and isinstance(n.ast, ast.Compare) and (length_operand(n.ast.left, n) or length_operand(n.ast.comparators[0], n)):
+                tail.append(n)
     if len(tail) != 1:
-        raise AnalysisError("C11.TAIL", ic.qualname, "tail loop over self._len not found (%d candidates)" % len(tail))
+        raise AnalysisError("C11.TAIL", ic.qualname, "tail loop over the cached length not found (%d candidates)" % len(tail))
     path = cfg.path_avoiding(cfg.entry, [cfg.exit], avoid_nodes=tail)
     ctx.ob("C11.TAIL", ic, "every normal exit of the cached iterator passes through the tail loop that yields the "
-           "elements cached by other iterators (cache[i] for i < _len)", path is None, construct="exit only via `while %s`" % src(tail[0].ast),
+           "elements cached by other iterators (cache[i] up to the cached length)", path is None, construct="exit only via the tail loop over the cached length",
            detail="" if path is None else "path to exit bypassing the tail loop: %s" % " -> ".join("L%d" % p.lineno for p in path if p.lineno),
            analysis="CFG must-pass-through")
     from ..rules_lock import stmt_text
     tl = tail[0]
     body_y = [n for n in cfg.reach([tl], labels=None) if n.kind == "stmt" and isinstance(n.ast, ast.Expr) and isinstance(n.ast.value, ast.Yield)]
-    ok = src(tl.ast).replace(" ", "") == "i<self._len"
-    ctx.ob("C11.TAIL", ic, "the tail loop runs while the cursor is below the published length", ok, construct="tail loop test: %s" % src(tl.ast))
+    nc = norm_cmp(tl.ast)
+    lhs_len = length_operand(tl.ast.left, tl)
+    # cursor < length   (or length > cursor)
+    ok = nc is not None and ((nc[0] == "Lt" and not lhs_len) or (nc[0] == "Gt" and lhs_len))
+    ctx.ob("C11.TAIL", ic, "the tail loop runs while the cursor is below the cached length", ok, construct="tail loop test")
 
     # C11.DRAINED - once the shared generator is exhausted no further element is taken from the cache by the filling loop
     handlers = [n for n in cfg.live_nodes() if n.kind == "handler" and n.ast.type is not None and "StopIteration" in src(n.ast.type)]
